@@ -9,31 +9,55 @@ import ConfModel.Model.Config
 namespace ConfModel.Library
 open ConfModel.Config
 
-/-! ### Go library functions: path.Join / path.Clean -/
+/-! ### Go library functions: path.Join / path.Clean
+
+Written over the characters of the strings (`List Char`) with structural recursion only, so that
+`Props/C07.names_injective` can reason about them; `pathJoin` is the function the driver runs. -/
+
+/-- `strings.Split(s, "/")`: the segments between the slashes (always at least one) -/
+def splitSlash : List Char → List (List Char)
+  | [] => [[]]
+  | c :: cs =>
+    if c = '/' then [] :: splitSlash cs
+    else match splitSlash cs with
+      | [] => [[c]]
+      | seg :: rest => (c :: seg) :: rest
+
+/-- `strings.Join(segs, "/")` -/
+def joinSlash : List (List Char) → List Char
+  | [] => []
+  | [a] => a
+  | a :: b :: rest => a ++ '/' :: joinSlash (b :: rest)
 
 /-- the component loop of `path.Clean`; `stack` is the output so far, reversed -/
-def cleanComps (rooted : Bool) : List String → List String → List String
+def cleanComps (rooted : Bool) : List (List Char) → List (List Char) → List (List Char)
   | stack, [] => stack.reverse
   | stack, c :: cs =>
-    if c = "" ∨ c = "." then cleanComps rooted stack cs
-    else if c = ".." then
+    if c = [] ∨ c = ['.'] then cleanComps rooted stack cs
+    else if c = ['.', '.'] then
       match stack with
       | top :: rest =>
-        if top = ".." then cleanComps rooted (".." :: stack) cs else cleanComps rooted rest cs
-      | [] => if rooted then cleanComps rooted [] cs else cleanComps rooted [".."] cs
+        if top = ['.', '.'] then cleanComps rooted (['.', '.'] :: stack) cs else cleanComps rooted rest cs
+      | [] => if rooted then cleanComps rooted [] cs else cleanComps rooted [['.', '.']] cs
     else cleanComps rooted (c :: stack) cs
 
-/-- Go `path.Clean` -/
-def pathClean (s : String) : String :=
-  if s = "" then "." else
-  let rooted := s.startsWith "/"
-  let out := "/".intercalate (cleanComps rooted [] (s.splitOn "/"))
-  if rooted then "/" ++ out else if out = "" then "." else out
+/-- Go `path.Clean`, on the characters -/
+def pathCleanL (s : List Char) : List Char :=
+  if s = [] then ['.'] else
+  let rooted := s.head? = some '/'
+  let out := joinSlash (cleanComps rooted [] (splitSlash s))
+  if rooted then '/' :: out else if out = [] then ['.'] else out
 
-/-- Go `path.Join`: empty elements are ignored, the rest joined with "/" and cleaned -/
-def pathJoin (elems : List String) : String :=
-  let ne := elems.filter (fun e => e ≠ "")
-  if ne.isEmpty then "" else pathClean ("/".intercalate ne)
+/-- Go `path.Join`, on the characters: empty elements are ignored, the rest joined with "/" and cleaned -/
+def pathJoinL (elems : List (List Char)) : List Char :=
+  let ne := elems.filter (fun e => e ≠ [])
+  if ne.isEmpty then [] else pathCleanL (joinSlash ne)
+
+/-- Go `path.Clean` -/
+def pathClean (s : String) : String := String.ofList (pathCleanL s.toList)
+
+/-- Go `path.Join` -/
+def pathJoin (elems : List String) : String := String.ofList (pathJoinL (elems.map String.toList))
 
 /-! ### data -/
 
@@ -84,6 +108,9 @@ structure Perm where
   method : String
   rawRequest : Bool
   rawResponse : Bool
+  certText : String     -- string(Request.ServerTlsCert)
+  credsText : String    -- "" when Request.ClientTlsCreds == nil, else key ++ "|" ++ cert
+  recvLimit : Nat       -- Request.MessageReceiveLimit
   suite : String
   case : Case
   test : Test
@@ -143,6 +170,12 @@ def namePrefix (s : Suite) (c : Case) : List String :=
 
 def serviceName : String := "connectrpc.conformance.v1.ConformanceService"
 
+/-- `clientReceiveLimit` (tied to the tree by `Generated.C07Facts` + `Props.C07.receive_limit_fact`) -/
+def clientReceiveLimit : Nat := 1048576
+
+/-- `[]byte("PLACEHOLDER")`: "to be replaced with actual cert provided by server" -/
+def placeholder : String := "PLACEHOLDER"
+
 /-- the stream type → method switch of `expandCases` -/
 def defaultMethod : ST → String
   | .unary => "Unary" | .client => "ClientStream" | .server => "ServerStream"
@@ -159,6 +192,9 @@ def mkPerm (join : List String → String) (s : Suite) (c : Case) (pre : List St
     service := if t.service = "" then serviceName else t.service,
     method := if t.service = "" then defaultMethod t.st else t.method,
     rawRequest := t.rawRequest, rawResponse := t.rawResponse,
+    certText := if c.tls then placeholder else "",
+    credsText := if c.tls then (if c.certs then placeholder ++ "|" ++ placeholder else "") else "",
+    recvLimit := clientReceiveLimit,
     suite := s.name, case := c, test := t }
 
 /-- Go `expandCases`; `i` = index of the head test case, `acc` = `lib.testCases` so far -/
